@@ -35,7 +35,9 @@ FEATURES = ["where-alias", "where-complex", "groupby-alias", "groupby-selected-a
             # clauses and terms beyond aliases: whatever the inner query consists of belongs inside its brackets, unchanged
             "for-update", "for-update-of-nowait", "having-subquery", "orderby-subquery", "select-subquery", "where-subquery-comparison",
             "inner-cte", "join-using", "force-index", "prewhere", "rollup", "setop-orderby", "setop-limit", "groupby-subquery",
-            "setop-aliased-branches"]
+            "setop-aliased-branches",
+            # a reference to a table of the statement around the query (correlation): the query's own reason to qualify its columns
+            "correlated-where", "correlated-prewhere", "correlated-where-only-reason"]
 
 
 def R():
@@ -90,6 +92,12 @@ def build_inner(Q, feats, depth=0):
         q = q.orderby((t.a + 1).as_("oe"))
     if "groupby-expr-alias" in feats:
         q = q.groupby((t.a + 2).as_("ge"))
+    if "correlated-where" in feats:
+        q = q.where(t.a == T("tout").x)
+    if "correlated-where-only-reason" in feats:
+        q = q.where(t.b > T("tout").lim).where(t.c == 1)
+    if "correlated-prewhere" in feats:
+        q = q.prewhere(t.b < T("tout").y)
     if "where-complex" in feats:
         q = q.where((t.a > 1) | (t.b < 2)).where((t.c == 3) & ((t.a == 1) | (t.b == 2)))
     if "between-alias" in feats:
